@@ -129,6 +129,10 @@ impl Report {
 	}
 	/// the oracle rejected an observed execution
 	pub fn violation(&mut self, signature: &str, what: &str, mut witness: Value) {
+		if signature.starts_with("harness-panic|") {
+			self.inconclusive(&format!("harness panic in case {} ({signature})", self.current_case));
+			return;
+		}
 		let g = self.violations.entry(signature.to_string()).or_default();
 		g.count += 1;
 		if g.what.is_empty() {
